@@ -8,10 +8,10 @@ import itertools
 from harness.core import CaseResult, hit, rng_for
 from harness import serverdrv as sd
 
-RULE = ('command sequences over an alphabet of 36 command lines (EHLO/HELO, MAIL and RCPT well-formed and malformed in '
+RULE = ('command sequences over an alphabet of 38 command lines (EHLO/HELO, MAIL and RCPT well-formed and malformed in '
         'several ways, SIZE parameters, DATA + body, RSET, NOOP, QUIT, STARTTLS, AUTH variants, unknown, empty, '
-        'argument where none is allowed, non-UTF-8) x validator verdicts {accept, 450, 550, 421} at one callback x 4 '
-        'extension configurations: all sequences up to depth 3 after a fixed prefix reaching each server state, plus '
+        'argument where none is allowed, non-UTF-8) x validator verdicts {accept, 450, 550, 421} at one callback x 5 '
+        'configurations (4 extension sets, one with a handler-defined command): all sequences up to depth 3 after a fixed prefix reaching each server state, plus '
         'seeded long sessions. distinct = distinct (config, lines, verdicts); non-trivial = at least one command.')
 BUDGET_S = {'quick': 160, 'thorough': 1500}
 
@@ -23,7 +23,7 @@ TOKENS = [
     b'RCPT TO:<r@y>', b'RCPT TO:<r2@y> NOTIFY=NEVER', b'RCPT TO:r@y', b'RCPT', b'rcpt to:<"q>q"@y>',
     b'DATA', b'DATA now', b'BODY',
     b'RSET', b'RSET x', b'NOOP', b'NOOP x', b'QUIT', b'QUIT x',
-    b'STARTTLS', b'STARTTLS x', PLAIN_OK, b'AUTH', b'AUTH BOGUS', b'VRFY x', b'', b'123 456',
+    b'STARTTLS', b'STARTTLS x', PLAIN_OK, b'AUTH', b'AUTH BOGUS', b'VRFY x', b'', b'123 456', b'XPING', b'xping  now ',
 ]
 BODY = b'Subject: hi\r\n\r\nMAIL FROM:<evil@x>\r\n..dot\r\n.\r\n'
 PREFIXES = [
@@ -35,6 +35,7 @@ CONFIGS = [
     {'starttls': True, 'auth': True, 'maxsize': None},
     {'starttls': False, 'auth': False, 'maxsize': 100},
     {'starttls': True, 'auth': False, 'maxsize': 20},
+    {'starttls': False, 'auth': False, 'maxsize': None, 'custom': [b'XPING']},   # the handler object implements XPING
 ]
 
 
@@ -139,7 +140,18 @@ def monitor_order(events, commands_seen):
     return hits, finals
 
 
+_STOCK = {}
+
+
+def stock_replies():
+    """The module-level replies of slimta.smtp.reply (the server's own error replies), as (code, message)."""
+    import slimta.smtp.reply as rp
+    return {n: (o.code, o.message) for n, o in vars(rp).items() if isinstance(o, rp.Reply)}
+
+
 def run_case(case, model):
+    if not _STOCK:
+        _STOCK.update(stock_replies())
     cfg = CONFIGS[case['cfg']]
     lines = [bytes.fromhex(l) for l in case['lines']]
     clear, tls = build(lines)
@@ -168,6 +180,14 @@ def run_case(case, model):
                         expected=expected_finals))
     if res['ending'] == 'aborted' and res['events'] and res['events'][-1] not in ('r421', 'r501'):
         hits.append(hit('c07.abort-without-reply', 'the session was aborted without a 421/501 reply', observed=res['events'][-4:]))
+    now = stock_replies()
+    if now != _STOCK:
+        import slimta.smtp.reply as rp
+        changed = sorted(n for n in _STOCK if now.get(n) != _STOCK[n])
+        hits.append(hit('c07.stock-reply-changed', 'a session changed one of the server\'s own module-level replies; every later '
+                        'session answers with the changed one', observed={n: now.get(n) for n in changed}, expected={n: _STOCK[n] for n in changed}))
+        for n in changed:      # put it back so that the next case starts from the stock replies
+            getattr(rp, n).code, getattr(rp, n).message = _STOCK[n]
     tags = ['cfg%d' % case['cfg'], 'end=' + res['ending'], 'len<=4' if len(lines) <= 4 else 'len<=8' if len(lines) <= 8 else 'len>8']
     if any(v is not None for v in case['verdicts']):
         tags.append('verdict-override')
